@@ -40,6 +40,8 @@ type loopInfo struct {
 	heaps   map[string]bool
 	allHeap bool
 	spec    *spec.LoopSpec
+	allocStores map[string][]*ssa.Alloc // heap -> struct-typed local allocs whose field is stored (keyed havoc)
+	calls   []*ssa.CallCommon             // contract calls whose assigns are resolved at havoc time
 }
 
 type Exec struct {
@@ -185,7 +187,7 @@ func (x *Exec) findLoops() {
 			if succ.Dominates(b) {
 				li := x.loops[succ]
 				if li == nil {
-					li = &loopInfo{header: succ, body: map[*ssa.BasicBlock]bool{succ: true}, cells: map[*ssa.Alloc]bool{}, heaps: map[string]bool{}}
+					li = &loopInfo{header: succ, body: map[*ssa.BasicBlock]bool{succ: true}, cells: map[*ssa.Alloc]bool{}, heaps: map[string]bool{}, allocStores: map[string][]*ssa.Alloc{}}
 					x.loops[succ] = li
 				}
 				// natural loop: all nodes that can reach b without passing header
@@ -240,14 +242,23 @@ func (x *Exec) rootOf(v ssa.Value, li *loopInfo) {
 	switch v := v.(type) {
 	case *ssa.Alloc:
 		if isStruct(v.Type().(*types.Pointer).Elem()) {
-			// whole-struct store: all fields
-			x.structHeaps(v.Type().(*types.Pointer).Elem(), li)
+			// whole-struct store into a local struct: all its fields, at that reference only
+			if li.allocStores != nil {
+				x.structHeapsAt(v.Type().(*types.Pointer).Elem(), v, li)
+			} else {
+				x.structHeaps(v.Type().(*types.Pointer).Elem(), li)
+			}
 		} else {
 			li.cells[v] = true
 		}
 	case *ssa.FieldAddr:
 		st := v.X.Type().Underlying().(*types.Pointer).Elem()
 		ft := st.Underlying().(*types.Struct).Field(v.Field).Type()
+		if al, isAlloc := v.X.(*ssa.Alloc); isAlloc && !isStruct(ft) && li.allocStores != nil {
+			name, _, _ := x.E.fieldHeap(st, v.Field)
+			li.allocStores[name] = append(li.allocStores[name], al)
+			return
+		}
 		if isStruct(ft) {
 			x.structHeaps(ft, li)
 		} else {
@@ -292,6 +303,19 @@ func (x *Exec) rootOf(v ssa.Value, li *loopInfo) {
 		}
 	default:
 		li.allHeap = true
+	}
+}
+
+func (x *Exec) structHeapsAt(st types.Type, al *ssa.Alloc, li *loopInfo) {
+	u := st.Underlying().(*types.Struct)
+	for i := 0; i < u.NumFields(); i++ {
+		ft := u.Field(i).Type()
+		if isStruct(ft) {
+			x.structHeaps(ft, li) // nested value structs: conservative
+			continue
+		}
+		name, _, _ := x.E.fieldHeap(st, i)
+		li.allocStores[name] = append(li.allocStores[name], al)
 	}
 }
 
@@ -353,12 +377,23 @@ func (x *Exec) scanCall(call *ssa.CallCommon, li *loopInfo) {
 			li.allHeap = true
 			return
 		}
-		hs, all := x.contractHeaps(c, call)
+		if li.allocStores != nil {
+			li.calls = append(li.calls, call)
+		} else {
+			hs, all := x.contractHeaps(c, call, nil, nil)
+			if all {
+				li.allHeap = true
+			}
+			for _, h := range hs {
+				li.heaps[h.Heap] = true
+			}
+		}
+		hs, all := []Target(nil), false
 		if all {
 			li.allHeap = true
 		}
 		for _, h := range hs {
-			li.heaps[h] = true
+			li.heaps[h.Heap] = true
 		}
 		// post(b) targets: roots of the argument values
 		for _, a := range c.Assigns {
@@ -567,6 +602,7 @@ func (x *Exec) execFrom(s *State, b *ssa.BasicBlock, start int, prev *ssa.BasicB
 			}
 			if isBack {
 				env := x.specEnv(s, nil)
+				env.LoopHeader = b
 				for i, inv := range li.spec.Invariants {
 					x.curInstr = b.Instrs[0]
 					x.addObl(s, "inv-keep", fmt.Sprintf("loop%d:%s", li.ordinal, clauseLabel(inv, i)), x.evalBool(env, inv.E), x.clauseProps(inv), inv.Src)
@@ -576,12 +612,14 @@ func (x *Exec) execFrom(s *State, b *ssa.BasicBlock, start int, prev *ssa.BasicB
 			}
 			// entry
 			env := x.specEnv(s, nil)
+			env.LoopHeader = b
 			for i, inv := range li.spec.Invariants {
 				x.curInstr = b.Instrs[0]
 				x.addObl(s, "inv-init", fmt.Sprintf("loop%d:%s", li.ordinal, clauseLabel(inv, i)), x.evalBool(env, inv.E), x.clauseProps(inv), inv.Src)
 			}
 			x.havocLoop(s, li)
 			env = x.specEnv(s, nil)
+			env.LoopHeader = b
 			for _, inv := range li.spec.Invariants {
 				s.assume(x.evalBool(env, inv.E))
 			}
@@ -684,9 +722,55 @@ func (x *Exec) havocLoop(s *State, li *loopInfo) {
 		x.havocAllHeap(s, tag)
 		return
 	}
+	whole := map[string]bool{}
 	for h := range li.heaps {
+		whole[h] = true
+	}
+	keyed := map[string][]*smt.Term{}
+	for h, als := range li.allocStores {
+		for _, al := range als {
+			if v, ok := s.env[al]; ok {
+				if tv, ok := v.(TermVal); ok {
+					keyed[h] = append(keyed[h], tv.T)
+				}
+			}
+			// allocs created inside the loop are fresh each iteration: nothing to havoc
+		}
+	}
+	for _, call := range li.calls {
+		c, _ := x.calleeContract(call)
+		ts, all := x.contractHeaps(c, call, s, li)
+		if all {
+			x.havocAllHeap(s, tag)
+			return
+		}
+		for _, t := range ts {
+			if t.Key == nil {
+				whole[t.Heap] = true
+			} else {
+				keyed[t.Heap] = append(keyed[t.Heap], t.Key)
+			}
+		}
+	}
+	for h := range whole {
 		x.Heap(s, h)
 		s.heap[h] = smt.Fresh(h+"$"+tag, x.E.HeapSorts[h])
+		x.wrote[h] = true
+	}
+	for h, keys := range keyed {
+		if whole[h] {
+			continue
+		}
+		srt := x.E.HeapSorts[h]
+		cur := x.Heap(s, h)
+		for _, k := range keys {
+			if srt.Kind == smt.KArr {
+				cur = smt.Store(cur, k, smt.Fresh(h+"$"+tag, srt.Args[1]))
+			} else {
+				cur = smt.Fresh(h+"$"+tag, srt)
+			}
+		}
+		s.heap[h] = cur
 		x.wrote[h] = true
 	}
 	if li.spec != nil {
